@@ -158,6 +158,12 @@ fn reference_at<T: Scalar>(v: &V, xs: &[f64], t: usize, got: f64) -> Option<f64>
         .ok()
         .flatten()
     } else {
+        // CTI is a correlation (and has a reference) only once its window is full (C06)
+        if let Kind::Cti(n) = v.kind {
+            if t + 1 < n {
+                return None;
+            }
+        }
         let from = (t + 1).saturating_sub(tail_len(&v.kind));
         // Alma: absolute insertion positions matter only while the stream is shorter than 2N-1
         if let Kind::Alma(n) = v.kind {
